@@ -446,6 +446,9 @@ impl Fam for V3 {
     fn header_decode(bytes: &[u8]) -> Result<HdrInfo, Error> {
         Header::decode(bytes).map(hdr_info)
     }
+    async fn header_decode_async<R: AsyncRead + Unpin>(r: &mut R) -> Result<HdrInfo, Error> {
+        Header::decode_async(r).await.map(hdr_info)
+    }
     fn header_new_with(byte: u8, rl: u32) -> Result<HdrInfo, Error> {
         Header::new_with(byte, rl).map(hdr_info)
     }
